@@ -14,22 +14,30 @@ patch = open(os.path.join(seed, "patch.diff")).read()
 rc, out = sh("git status --porcelain")
 demo_files = [l[3:] for l in out.split("\n") if l.startswith("??") and "SEEDED" not in l and "target" not in l]
 features = " --features unsafe" if "--features unsafe" in open(os.path.join(seed, "demo.rs")).read() + open(os.path.join(seed, "notes.md")).read() else ""
+if "cargo test --release" in open(os.path.join(seed, "demo.rs")).read(): features += " --release"      # a change that only shows without debug assertions
 res = {"property": pid, "worktree_demo_files": demo_files}
+PHASE = os.environ.get("SEEDCHECK_PHASE", "AB")     # A: the worktree part only (may run in parallel); B: store + checks in /repo (serial)
+PART = os.path.join(seed, ".phaseA.json")
 demo_name = None
 for f in demo_files:
     if f.endswith(".rs") and "/tests/" in f: demo_name = os.path.splitext(os.path.basename(f))[0]
 cfgflag = 'RUSTFLAGS="--cfg deepcausality_rs_deep_causality_verif" ' if "deepcausality_rs_deep_causality_verif" in open(os.path.join(seed, "demo.rs")).read() else ""
 cmd = f"{cfgflag}cargo test -p {crate} --test {demo_name} --offline{features}" if demo_name else None
 res["demo_cmd"] = cmd
-rc1, o1 = sh(cmd); res["demo_with_change"] = "fails" if rc1 != 0 else "PASSES(!)"
-sh("git diff > SEEDED/.lib.diff && git checkout -- .")          # no git stash: the stash is shared between worktrees
-rc2, o2 = sh(cmd); res["demo_without_change"] = "passes" if rc2 == 0 else "FAILS(!)"
-sh("git apply SEEDED/.lib.diff && rm SEEDED/.lib.diff")
-# the unedited suite with the change (demo moved aside)
-for f in demo_files: os.rename(os.path.join(wt, f), os.path.join(wt, f) + ".aside")
-rc3, o3 = sh("cargo test --workspace --no-fail-fast --offline 2>&1 | grep -E '^test result' | awk '{p+=$4; f+=$6} END {print p, f}'")
-for f in demo_files: os.rename(os.path.join(wt, f) + ".aside", os.path.join(wt, f))
-res["suite_with_change"] = o3.strip()
+if "A" not in PHASE:
+    res = json.load(open(PART))
+else:
+  rc1, o1 = sh(cmd); res["demo_with_change"] = "fails" if rc1 != 0 else "PASSES(!)"
+  sh("git diff > SEEDED/.lib.diff && git checkout -- .")          # no git stash: the stash is shared between worktrees
+  rc2, o2 = sh(cmd); res["demo_without_change"] = "passes" if rc2 == 0 else "FAILS(!)"
+  sh("git apply SEEDED/.lib.diff && rm SEEDED/.lib.diff")
+  # the unedited suite with the change (demo moved aside)
+  for f in demo_files: os.rename(os.path.join(wt, f), os.path.join(wt, f) + ".aside")
+  rc3, o3 = sh("cargo test --workspace --no-fail-fast --offline 2>&1 | grep -E '^test result' | awk '{p+=$4; f+=$6} END {print p, f}'")
+  for f in demo_files: os.rename(os.path.join(wt, f) + ".aside", os.path.join(wt, f))
+  res["suite_with_change"] = o3.strip()
+if PHASE == "A":
+    json.dump(res, open(PART, "w"), indent=1); print(json.dumps(res, indent=1)); sys.exit(0)
 # store
 k = 1
 while os.path.exists(f"/verif/seeded/{pid}-{k}"): k += 1
@@ -51,7 +59,7 @@ try:
             if viol:
                 rp = viol[0].split("replay=")[1].split()[0]
                 try:
-                    d = json.load(open(rp)); checks[c]["first_replay"] = {k: d.get(k) for k in ("kind", "why", "what", "harness_line", "finding") if k in d}
+                    d = json.load(open(rp)); checks[c]["first_replay"] = {k: (d.get(k) if len(str(d.get(k))) < 3000 else str(d.get(k))[:3000] + " ...(truncated)") for k in ("kind", "why", "what", "harness_line", "finding") if k in d}
                 except Exception as ex: checks[c]["first_replay"] = str(ex)
 finally:
     subprocess.run("git checkout -- . && git clean -fdq", shell=True, cwd="/repo")
